@@ -84,12 +84,69 @@ Proof.
 Qed.
 
 (* a chain of selections only ever narrows the view *)
+Lemma at_nodes_narrows t v s lv ids : forall r, In r (at_nodes t v s lv ids) -> In r v.
+Proof. intros r H. destruct ids as [l|]; cbn in H; [apply filter_In in H; tauto | exact H]. Qed.
+
+Lemma select_step_narrows t sh v s lv i v' : select_step t sh v s lv i = Some v' -> forall r, In r v' -> In r v.
+Proof.
+  unfold select_step. intros H r Hr.
+  assert (A : forall ids s', Some (at_nodes t v s' lv ids) = Some v' -> In r v).
+  { intros ids s' E. injection E as E. subst v'. eapply at_nodes_narrows; exact Hr. }
+  assert (G : match reformat (length t) sh i with None => None | Some ids => Some (at_nodes t v s lv ids) end = Some v' -> In r v).
+  { destruct (reformat (length t) sh i) as [ids|]; [|discriminate]. apply A. }
+  destruct i; try (apply G; exact H).
+  destruct (length m =? length (np_unique (map (global_index t lv) v))); [|apply G; exact H].
+  eapply A; exact H.
+Qed.
+
 Theorem chain_narrows t sh : forall c v v', chain t sh v c = Some v' -> forall r, In r v' -> In r v.
 Proof.
-  induction c as [|[[s lv] i] rest IH]; intros v v' H r Hr; cbn in H.
+  induction c as [|[[s lv] i] rest IH]; intros v v' H r Hr; cbn [chain] in H.
   - inversion H; subst. exact Hr.
-  - destruct (reformat (length t) (sh v) i) as [ids|]; [|discriminate].
-    destruct (at_nodes t v s lv ids) as [|a l] eqn:E; [discriminate|].
-    specialize (IH _ _ H r Hr). rewrite <- E in IH.
-    destruct ids as [l0|]; cbn in IH; [apply filter_In in IH; tauto | exact IH].
+  - destruct (select_step t (sh v) v s lv i) as [[|a l]|] eqn:E; try discriminate.
+    eapply select_step_narrows; [exact E|]. eapply IH; eauto.
 Qed.
+
+(* boolean masks: positional among what is in view, in either scope *)
+Lemma mask_step_exact t sh v s lv m :
+  length m = length (np_unique (map (global_index t lv) v)) ->
+  select_step t sh v s lv (IMask m)
+  = Some (filter (fun r => mem (global_index t lv r) (mask_select m (np_unique (map (global_index t lv) v)))) v).
+Proof. intros H. unfold select_step. apply Nat.eqb_eq in H. rewrite H. reflexivity. Qed.
+
+Lemma mask_step_scope_independent t sh v lv m :
+  length m = length (np_unique (map (global_index t lv) v)) ->
+  select_step t sh v Local lv (IMask m) = select_step t sh v Global lv (IMask m).
+Proof. intros H. now rewrite !mask_step_exact. Qed.
+
+Lemma filter_mem_id (f : nat -> nat) u : forall v, (forall r, In r v -> In (f r) u) -> filter (fun r => mem (f r) u) v = v.
+Proof.
+  induction v as [|r v IH]; intros Hu; [reflexivity|]. cbn [filter].
+  assert (M : mem (f r) u = true) by (apply mem_In, Hu; now left). rewrite M. f_equal.
+  apply IH. intros q Hq. apply Hu. now right.
+Qed.
+
+Lemma mask_all_true_selects_everything t sh v s lv :
+  let u := np_unique (map (global_index t lv) v) in
+  (forall r, In r v -> In (global_index t lv r) u) ->
+  select_step t sh v s lv (IMask (repeat true (length u))) = Some v.
+Proof.
+  intros u Hu. rewrite mask_step_exact by (now rewrite repeat_length).
+  fold u. f_equal.
+  assert (E : forall l, mask_select (repeat true (length l)) l = l).
+  { unfold mask_select. intros l. induction l as [|x l IH]; [reflexivity|]. cbn. now rewrite IH. }
+  rewrite E. now apply filter_mem_id.
+Qed.
+
+Lemma insert_sorted_In x y : forall l, In y (insert_sorted x l) <-> y = x \/ In y l.
+Proof.
+  induction l as [|z l IHl]; cbn [insert_sorted].
+  - cbn. intuition.
+  - destruct (Nat.ltb_spec x z).
+    + cbn. intuition.
+    + destruct (Nat.eqb_spec x z) as [->|Hne].
+      * cbn. intuition.
+      * cbn [In]. rewrite IHl. intuition.
+Qed.
+Lemma np_unique_In y l : In y (np_unique l) <-> In y l.
+Proof. induction l as [|x l IH]; cbn; [tauto|]. rewrite insert_sorted_In, IH. intuition. Qed.
